@@ -257,8 +257,34 @@ def epoch_rules(ctx):
                   "orphan slot, release-CAS, delete on success / hand back on failure; three epochs; retire into the current local epoch")
     chain(ctx, rid, TD + "set_critical_region_flag", [{"k": "call", "field": "is_in_critical_region", "op": "store", "desc": "flag store"}, FENCE_SC], label="flag<fence",
           why="store->load ordering between announcing the critical region and reading the global epoch")
-    chain(ctx, rid, TD + "do_enter_critical", [call("set_critical_region_flag"), {"k": "call", "field": "global_epoch", "op": "load", "desc": "global_epoch.load"}],
-          label="flag<epoch-load", optional_first=True)
+    for fn in flow._shapes(ctx, TD + "do_enter_critical"):
+        sets = flow.find(fn, call("set_critical_region_flag"))
+        loads = flow.find(fn, {"k": "call", "field": "global_epoch", "op": "load"})
+        inst = TD + "do_enter_critical#flag<epoch-load"
+        if not loads:
+            ctx.bad(rid, inst, "do_enter_critical does not read the global epoch", fn.where(), fn=fn)
+            continue
+        if not sets:
+            # eager region extension: the flag is set by enter_region()
+            ctx.ok(rid, inst, "flag is set by enter_region in this configuration", fn.where(), nontrivial=False, fn=fn)
+            continue
+        flagload = lambda f, nid: bool(f.atomic(nid)) and f.atomic(nid)["kind"] == "load" and f.atomic(nid)["field"].endswith("is_in_critical_region")
+        okall = True
+        for l in loads:
+            ok, path = flow.must_pass(fn, l, sets)
+            if not ok:
+                # lazy region extension: allowed to skip the call only on the edge where the flag was observed to be set already
+                edges = flow.cond_edges(fn, flagload)
+                removed = {(b, f_) for b, atom, t, f_ in edges if f_ is not None}  # remove the 'flag not set' edges... t = flag set
+                # paths that avoid set_critical_region_flag must go through a 'flag set' edge
+                pos = fn.pos()
+                blocked = {pos[x][0] for x in sets}
+                reach = fn.reachable_blocks(removed_edges={(b, t) for b, atom, t, f_ in edges if t is not None}, removed_blocks=blocked)
+                ok = pos[l][0] not in reach and bool(edges)
+            okall = okall and ok
+        ctx.check(okall, rid, inst, "global epoch is read only after the critical-region flag was set (and fenced)",
+                  "the global epoch can be read on a path where the critical-region flag has not been set: the epoch may advance twice while "
+                  "this thread believes it is protected", fn.where(loads[0]), fn=fn)
     GE_CAS = {"k": "call", "field": "global_epoch", "kind": "cas", "desc": "global_epoch CAS"}
     chain(ctx, rid, TD + "update_global_epoch", [dict(FENCE_ACQ), GE_CAS], label="acquire-fence<cas",
           why="the fence orders the scan's loads of the other threads' state before publishing the new epoch")
